@@ -2188,6 +2188,12 @@ impl Model {
                 self.push(se, c, format!("379 {}", n));
                 se.cur = base;
             }
+            if self.cfg.all_secure {
+                // the asker's transport is secure => the server is a TLS server => everybody is (the server's own reasoning)
+                se.cur = P20;
+                self.push(se, c, format!("671 {}", n));
+                se.cur = base;
+            }
             se.labels.push(format!("WHOIS/shown{}", if u.modes.is_oper() { "/oper" } else { "" }));
         }
         self.push(se, c, format!("318 {}", masks.join(",")));
